@@ -41,9 +41,9 @@ HEADER = (
 MODEL_TARGETS = ["Model/Mixup.vo", "Lib/FloatSelect.vo"]
 # Print Assumptions of the three IEEE-level theorems lists the stdlib axioms Flocq / Reals import
 ALLOWED_AXIOMS = ("ClassicalDedekindReals.", "FunctionalExtensionality.", "Classical_Prop.")
-SELECT_SAMPLE = 24
+SELECT_SAMPLE = 12
 SHARD = 150
-RULE = ("(feature entries: all-distinct float32 values 1e-45..1e8 traced by exact bit lookup; per call up to 24 "
+RULE = ("(feature entries: all-distinct float32 values 1e-45..1e8 traced by exact bit lookup; per call up to 12 "
         "entries, extreme magnitudes / zeros / subnormals first, are also checked bit for bit against Flocq's "
         "binary32 evaluation of mask*x + ~mask*x') one call -- or a sequence of 2-4 calls sharing in-place refreshed tensor objects (mi_scores, x, y) -- of "
         "feature_mixup (directly or through ExcelFormer.forward(mixup_encoded=True)) on a batch "
@@ -63,16 +63,20 @@ TRUSTED = [
     "mixup_entry_ieee_exact, mixup_entry_never_reads_other, rewritten_select_is_refuted -- the Coq standard library "
     "axioms it imports with Reals: ClassicalDedekindReals.sig_not_dec, ClassicalDedekindReals.sig_forall_dec, "
     "FunctionalExtensionality.functional_extensionality_dep, Classical_Prop.classic; torch's float32 kernel is tied "
-    "to Flocq's mask_select by the select32 correspondence on up to 24 entries per call (bit-exact incl. the sign "
+    "to Flocq's mask_select by the select32 correspondence on up to 12 entries per call (bit-exact incl. the sign "
     "of zeros)",
 ]
 ASSUMPTIONS = [
     "H_draws: Beta(beta,beta).sample, torch.randperm and torch.rand return rates in [0,1], indices < B and "
     "uniforms; their distribution is not part of the property (the theorems hold for every value of the draws)",
     "float32 round-off of lambda and of the convex combination is outside the exact model (tolerance 2e-6 * scale)",
-    "feature entries are finite float32 values of any magnitude incl. subnormals and zero (0 * x = 0 exactly, so "
-    "mask*x + ~mask*x' returns one of the two entries bit for bit, up to the sign of a zero: -0.0 and 0.0 are "
-    "identified); inf / nan embeddings are outside the model and never generated (bool * inf = nan in the code)",
+    "feature entries are finite float32 values of any magnitude incl. subnormals and zero: for those, "
+    "mask*x + ~mask*x' returns the selected entry bit for bit (Props/C19.v mixup_entry_ieee_exact), except for the "
+    "sign of a zero entry (-0.0 + 0.0 = +0.0) -- the oracle identifies -0.0 and 0.0, the select32 correspondence "
+    "checks even that sign against IEEE; inf / nan embeddings are outside the model and never generated "
+    "(bool * inf = nan in the code)",
+    "torch's float32 multiply / add are IEEE binary32 round-to-nearest-even as formalised by Flocq (checked per "
+    "run on up to 12 entries per call)",
 ]
 
 TOL = Fr(2, 10 ** 6)
